@@ -105,6 +105,10 @@ func roundTripRS(rs *zlint.ResultSet) (string, string) {
 }
 
 func judgeC14(rec *stats.Rec, c c14Case) (string, string) {
+	return apiGuard(func() (string, string) { return judgeC14Inner(rec, c) })
+}
+
+func judgeC14Inner(rec *stats.Rec, c c14Case) (string, string) {
 	switch c.What {
 	case "resultset":
 		run := engine.Execute(*c.Case, false)
